@@ -635,6 +635,13 @@ Fixpoint update_task_state_fuel (fuel : nat) (t : string) (route : nat) (evt : e
                               modws (fun w => ws_set_staged w
                                        (staged_update (fun s => s_set_run_on_fail s true) n rt (staged w))))
                           else ret tt) ;;;
+                         (* terminal when none of the transitions is satisfied *)
+                         r <- get_rec idx ;;
+                         (match transitions with
+                          | [] => ret tt
+                          | _ => if existsb (fun '(_, b) => b) (r_next r) then ret tt
+                                 else upd_rec idx (fun r => r_set_term r true)
+                          end) ;;;
                          ret cmds
                        else ret []
                    | None => ret []
